@@ -290,3 +290,67 @@ def _cmp(res, exp, sig, desc):
     d = snap.diff(snap.snap(res), snap.snap_spec(exp))
     if d:
         raise Violation(sig, '%s; case=%r' % ('; '.join(d), desc))
+
+
+def stress(ctx):
+    """Scale: requests naming more than 256 ids on a 300-id axis."""
+    biom = ctx.biom
+    r = ctx.rng('stress')
+    for axis in ('sample', 'observation'):
+        n = 300
+        ids = ['id%03d' % i for i in range(n)]
+        other = ['a', 'b', 'c']
+        rng = np.random.default_rng(r.randrange(2 ** 32))
+        V = rng.integers(0, 4, size=(n, 3)).astype(float)
+        V[:, 2] = 0
+        V[7, 2] = 5          # an other-axis vector that empties for most picks
+        D = V if axis == 'observation' else V.T
+        spec = gen.Spec(ids if axis == 'observation' else other,
+                        other if axis == 'observation' else ids, D,
+                        None, None, 'OTU table')
+        t = gen.build(biom, spec, 'dense')
+        h5p, jsp = ctx.path('c14s.biom'), ctx.path('c14s.json')
+        idp, outp = ctx.path('c14s.ids'), ctx.path('c14s.out')
+        try:
+            with h5py.File(h5p, 'w') as f:
+                t.to_hdf5(f, 'scale')
+            native = t.to_json('scale')
+            for k in (5, 257, 280):
+                sub = r.sample([i for i in ids if i != 'id007'], k)
+                desc = {'scale': '%d of %d ids on %s' % (k, n, axis)}
+                filt = expected_filter(spec, sub, axis, False)
+                dropped, _ = drop_empty_other(filt, axis)
+                with h5py.File(h5p, 'r') as f:
+                    _cmp(biom.Table.from_hdf5(f, ids=list(sub), axis=axis),
+                         dropped, 'C14/hdf5-subset', desc)
+                    e = filt.copy()
+                    e.type = None
+                    _cmp(biom.Table.from_hdf5(f, ids=list(sub), axis=axis,
+                                              subset_with_metadata=False),
+                         e, 'C14/hdf5-nomd-subset', desc)
+                _cmp(biom.parse_table(native, ids=list(sub), axis=axis),
+                     dropped, 'C14/json-parse-subset', desc)
+                with open(idp, 'w') as f:
+                    f.write('\n'.join(sub) + '\n')
+                for nm, tx in (('native', native),
+                               ('indent2', json.dumps(json.loads(native),
+                                                      indent=2))):
+                    with open(jsp, 'w') as f:
+                        f.write(tx)
+                    rr = _cli(['subset-table', '-j', jsp, '-a', axis, '-s',
+                               idp, '-o', outp])
+                    if rr.exit_code != 0:
+                        raise Violation('C14/cli-json-failed/' + nm,
+                                        'scale: exit %s %r %r; %r' %
+                                        (rr.exit_code, rr.output[-200:],
+                                         rr.exception, desc))
+                    with open(outp) as f:
+                        doc = jsonspec.loads_strict(f.read())
+                    _cmp(biom.Table.from_json(doc), filt,
+                         'C14/cli-json-subset/' + nm, desc)
+                ctx.count('scale_cases')
+                ctx.case(desc, True)
+        finally:
+            for p in (h5p, jsp, idp, outp):
+                if os.path.exists(p):
+                    os.remove(p)
